@@ -8,15 +8,24 @@
 (* population is replaced by exactly the N fresh children; if any call     *)
 (* fails the step returns that error and the population is left as it was. *)
 (*                                                                         *)
+(* kind = "seq": the population is a sequence-like collection (Vec,         *)
+(* VecDeque, LinkedList): N children give a population of N.  kind = "set": *)
+(* a set-like collection (BTreeSet, HashSet), which keeps one individual   *)
+(* per key: children with equal keys collapse, the population may shrink,  *)
+(* and the NEXT step makes exactly as many children as the population then *)
+(* has.                                                                    *)
+(*                                                                         *)
 (* mode = "serial": one call at a time, in order, none after a failure.    *)
 (* mode = "par": calls overlap arbitrarily; after a failure, calls not yet  *)
 (* started may or may not still run (latitude L6), and the error returned   *)
 (* is that of any failed call.                                             *)
 (***************************************************************************)
-EXTENDS Naturals, Sequences, FiniteSets
+EXTENDS Naturals, Sequences, FiniteSets, TLC
 
 CONSTANTS Workers,   \* set of worker ids
-          Gens       \* number of consecutive generation steps explored
+          Gens,      \* number of consecutive generation steps explored
+          Kinds,     \* population kinds explored: subset of {"seq", "set"}
+          KeySet     \* keys a child may have (what a set-like population identifies individuals by)
 
 VARIABLES pop,      \* current population: sequence of individual ids
           old,      \* population when the current step began
@@ -26,16 +35,20 @@ VARIABLES pop,      \* current population: sequence of individual ids
           nextId,   \* source of fresh individual ids
           rngpos,   \* [Workers -> Nat]: position of each worker's random stream
           mode,     \* "serial" | "par"
+          kind,     \* "seq" | "set"
+          key,      \* individual id -> its key (only looked at when kind = "set")
           gen       \* number of steps completed
 
-vars == <<pop, old, slot, phase, result, nextId, rngpos, mode, gen>>
+vars == <<pop, old, slot, phase, result, nextId, rngpos, mode, kind, key, gen>>
+
+Key(c) == key[c]
 
 ToSet(s) == {s[i] : i \in 1..Len(s)}
 
 Todo == [st |-> "todo", w |-> 0, child |-> 0, seen |-> <<>>, draw |-> <<0, 0>>]
 
 St(i) == slot[i].st
-N == Len(pop)
+N == Len(slot)          \* calls of the current step = size of the population when it began
 Slots == 1..N
 Some(st) == \E i \in Slots : St(i) = st
 AllSt(st) == \A i \in Slots : St(i) = st
@@ -43,20 +56,23 @@ AllSt(st) == \A i \in Slots : St(i) = st
 InitWith(p) ==
   /\ pop = p
   /\ old = pop
-  /\ slot = [i \in Slots |-> Todo]
+  /\ slot = [i \in 1..Len(p) |-> Todo]
   /\ phase = "idle"
   /\ result = [ok |-> TRUE, err |-> 0]
   /\ nextId = Len(p) + 1
   /\ rngpos = [w \in Workers |-> 0]
   /\ mode \in {"serial", "par"}
+  /\ kind \in Kinds
+  /\ key = [i \in ToSet(p) |-> i]            \* the initial members are distinct by key
   /\ gen = 0
 
 Begin ==
   /\ phase \in {"idle", "committed", "aborted"} /\ gen < Gens
   /\ phase' = "building"
   /\ old' = pop
-  /\ slot' = [i \in Slots |-> Todo]
-  /\ UNCHANGED <<pop, result, nextId, rngpos, mode, gen>>
+  /\ slot' = [i \in 1..Len(pop) |-> Todo]
+  /\ key' = [c \in ToSet(pop) |-> key[c]]        \* earlier individuals are gone
+  /\ UNCHANGED <<pop, result, nextId, rngpos, mode, kind, gen>>
 
 (* worker w starts the call for slot i: it is shown the current population *)
 Claim(w, i) ==
@@ -65,12 +81,13 @@ Claim(w, i) ==
         /\ ~Some("running") /\ ~Some("failed")
         /\ \A j \in Slots : j < i => St(j) = "done")
   /\ slot' = [slot EXCEPT ![i] = [@ EXCEPT !.st = "running", !.w = w, !.seen = pop]]
-  /\ UNCHANGED <<pop, old, phase, result, nextId, rngpos, mode, gen>>
+  /\ UNCHANGED <<pop, old, phase, result, nextId, rngpos, mode, kind, key, gen>>
 
 (* the call returns a fresh child c (an id never used before), having     *)
 (* consumed its worker's next draw                                         *)
-Finish(i, c) ==
+Finish(i, c, k) ==
   /\ phase = "building" /\ St(i) = "running"
+  /\ key' = (c :> k) @@ key
   /\ c >= nextId \/ (c \notin ToSet(old) /\ \A j \in Slots : slot[j].child # c)
   /\ c \notin ToSet(old) /\ \A j \in Slots : slot[j].child # c
   /\ LET w == slot[i].w IN
@@ -78,25 +95,37 @@ Finish(i, c) ==
                                                 !.draw = <<w, rngpos[w]>>]]
      /\ rngpos' = [rngpos EXCEPT ![w] = @ + 1]
   /\ nextId' = IF c >= nextId THEN c + 1 ELSE nextId
-  /\ UNCHANGED <<pop, old, phase, result, mode, gen>>
+  /\ UNCHANGED <<pop, old, phase, result, mode, kind, gen>>
 
 (* ... or fails: any call may (the environment decides) *)
 Fail(i) ==
   /\ phase = "building" /\ St(i) = "running"
   /\ slot' = [slot EXCEPT ![i] = [@ EXCEPT !.st = "failed"]]
-  /\ UNCHANGED <<pop, old, phase, result, nextId, rngpos, mode, gen>>
+  /\ UNCHANGED <<pop, old, phase, result, nextId, rngpos, mode, kind, key, gen>>
 
 (* all N calls succeeded: the population becomes exactly the N children *)
 (* (the order of the children in the new population is not part of the     *)
 (* property, L8: any arrangement p of exactly those children)               *)
+Children == {slot[i].child : i \in Slots}
+Keys(S) == {Key(c) : c \in S}
 CommitAs(p) ==
   /\ phase = "building" /\ AllSt("done")
-  /\ Len(p) = N /\ ToSet(p) = {slot[i].child : i \in Slots}
+  /\ IF kind = "seq"
+       THEN Len(p) = N /\ ToSet(p) = Children
+       ELSE /\ ToSet(p) \subseteq Children                 \* one child per key, no key lost
+            /\ Keys(ToSet(p)) = Keys(Children)
+            /\ Len(p) = Cardinality(Keys(Children))
   /\ pop' = p
   /\ phase' = "committed" /\ result' = [ok |-> TRUE, err |-> 0] /\ gen' = gen + 1
-  /\ UNCHANGED <<old, slot, nextId, rngpos, mode>>
+  /\ UNCHANGED <<old, slot, nextId, rngpos, mode, kind, key>>
 
-Commit == CommitAs([i \in Slots |-> slot[i].child])
+RECURSIVE OnePerKey(_, _)
+OnePerKey(i, seen) ==       \* the children in slot order, first of each key kept
+  IF i > N THEN <<>>
+  ELSE IF Key(slot[i].child) \in seen THEN OnePerKey(i + 1, seen)
+       ELSE <<slot[i].child>> \o OnePerKey(i + 1, seen \cup {Key(slot[i].child)})
+Commit == IF kind = "seq" THEN CommitAs([i \in Slots |-> slot[i].child])
+                          ELSE CommitAs(OnePerKey(1, {}))
 
 (* some call failed and none is still running: the error is returned and   *)
 (* the population is untouched; slots never started stay unstarted         *)
@@ -104,23 +133,27 @@ Abort ==
   /\ phase = "building" /\ Some("failed") /\ ~Some("running")
   /\ \E i \in Slots : St(i) = "failed" /\ result' = [ok |-> FALSE, err |-> i]
   /\ phase' = "aborted" /\ gen' = gen + 1
-  /\ UNCHANGED <<pop, old, slot, nextId, rngpos, mode>>
+  /\ UNCHANGED <<pop, old, slot, nextId, rngpos, mode, kind, key>>
 
 Next ==
   \/ Begin
   \/ \E w \in Workers, i \in Slots : Claim(w, i)
-  \/ \E i \in Slots : Finish(i, nextId) \/ Fail(i)
+  \/ \E i \in Slots : Fail(i) \/ \E k \in (IF kind = "set" THEN KeySet ELSE {0}) : Finish(i, nextId, k)
   \/ Commit \/ Abort
 
 -----------------------------------------------------------------------------
 
 NoTornPopulation ==
   phase = "building" => (pop = old /\ \A i \in Slots : St(i) # "todo" => slot[i].seen = old)
-SizePreserved == Len(pop) = Len(old)
+SizePreserved == IF kind = "seq" THEN Len(pop) = Len(old) ELSE Len(pop) <= Len(old)
+(* exactly as many calls as the population had when the step began *)
+CallsMatchSize == phase # "idle" => DOMAIN slot = 1..Len(old)
 AllFresh ==
   phase = "committed" =>
-     /\ ToSet(pop) = {slot[i].child : i \in Slots}
-     /\ Cardinality(ToSet(pop)) = N                   \* no child twice
+     /\ IF kind = "seq" THEN ToSet(pop) = Children /\ Cardinality(ToSet(pop)) = N   \* no child twice
+                         ELSE ToSet(pop) \subseteq Children /\ Keys(ToSet(pop)) = Keys(Children)
+                              /\ Cardinality(ToSet(pop)) = Len(pop)
+                              /\ Cardinality(Keys(ToSet(pop))) = Len(pop)
      /\ ToSet(pop) \cap ToSet(old) = {}               \* no parent carried over
 OwnRandomness ==
   \A i, j \in Slots : (i # j /\ St(i) = "done" /\ St(j) = "done") => slot[i].draw # slot[j].draw
